@@ -30,6 +30,21 @@ PLUGIN_CHECKS = ["fcp_dbc.generator:Generator.register_checks.check_impl_valid_t
                  "fcp_can_c.generator:Generator.register_checks.check_impl_valid_type"]
 
 PLANS = {
+    "C10": {
+        "targets": ["fcp.codegen:_handle_file", "fcp.codegen:_handle_print", "fcp.codegen:handle_result", "fcp.codegen:CodeGenerator.gen",
+                    "fcp.codegen:GeneratorManager.generate"],
+        "native": "gating",
+        "trusted": [
+            "assumed contracts: Verifier.verify returns a Result (its verdict is C09), CodeGenerator.generate (plug-in) returns result records, "
+            "_get_generator/_get_templates/_get_skels write nothing under the output directory",
+            "calls on values the engine knows nothing about (Path objects, plug-in objects, logging) are recorded in a per-path effect log; "
+            "only the recorded calls can touch the file system",
+            "real @catch/.attempt() code from fcp/maybe.py, fcp/result.py is symbolically executed, not axiomatised",
+        ],
+        "explanation": "effect contracts: on every path of GeneratorManager.generate, gen() is called iff verify() returned Ok, after it, and an Err "
+                       "verdict is returned unchanged with no further call; gen() hands exactly the plug-in's records of type 'file' to _handle_file, "
+                       "which performs mkdir(parent) then write_text(str(contents)) and nothing else",
+    },
     "C09": {
         "targets": GEN_CHECKS + PLUGIN_CHECKS + ["fcp.specs.v2:FcpV2.get_struct", "theorems:C09_general", "theorems:C09_dbc"],
         "native": "wf",
